@@ -204,8 +204,10 @@ def print_assumptions(prop_module, names, rundir):
         s = line.strip()
         if not s or s.startswith("Closed under the global context") or s.startswith("Axioms:"):
             continue
-        m = re.match(r"([A-Za-z0-9_.']+)\s*:", s)
-        if m and not line.startswith(" " * 4):
+        if line.startswith(" "):
+            continue                                   # continuation of the previous axiom's type
+        m = re.match(r"([A-Za-z0-9_.']+)\s*(:|$)", s)   # `name : type` or the name alone (its type follows on the next lines)
+        if m:
             res[cur].append(m.group(1))
     return res, out
 
